@@ -29,13 +29,14 @@ func run(c *Ctx) {
 	if c.Thorough() {
 		n = 40000
 	}
-	emit := func(cs *progs.Case) {
-		o := cs.Run()
+	var emit func(cs *progs.Case) progs.Obs
+	emit = func(cs *progs.Case) (o progs.Obs) {
+		o = cs.Run()
 		term := cs.Coq(o)
 		j := map[string]interface{}{"case": cs.Describe(), "written": o.Written, "line": string(bytes.ToValidUTF8(o.Line, []byte("?")))}
 		if o.Panic != nil {
 			c.Violate(Violation{Key: "logging-call-panicked", Monitor: "no-panic", Desc: fmt.Sprintf("logging program panicked: %v", o.Panic), Case: cs.Describe()})
-			return
+			return o
 		}
 		c.AddCase(term, j)
 		nontrivial := false
@@ -57,9 +58,18 @@ func run(c *Ctx) {
 		c.Hist("steps", fmt.Sprintf("%d", len(cs.Steps)))
 		c.Hist("written", fmt.Sprint(o.Written))
 		c.Sample(j)
+		return o
 	}
 	for _, cs := range corpus() {
 		emit(cs)
+	}
+	switch c.Prop {
+	case "C02":
+		n /= 3
+		runC02(c, emit)
+	case "C03":
+		n /= 3
+		runC03(c, emit)
 	}
 	for i := 0; i < n; i++ {
 		g := &progs.Gen{R: c.R.Fork()}
